@@ -18,7 +18,9 @@ RULE = ("Triangulated surfaces: well-shaped (min angle >= 8 deg) closed (tetra/o
         "reversed, rigidly moved, uniformly scaled (1e-6 ... 1e6: 1 / 0.05 / 20 / 1e-3 / 1e-4 / 1e-6 / 1e3 / 1e6, tolerances relative), integer lattices whose "
         "coordinates are handed over as numpy int64 / python ints, with an unreferenced trailing vertex in 1/10 of the cases; x "
         "state option (nothing cached / corner angles cached, which switches the cotangent formula) x neighbourhood sorting on/off x "
-        "a shuffled order of the operator groups on one shared mesh object (so cached area / cotan attributes are met in every order). On every mesh ALL options are swept: laplacian cotan/uniform/(vertex "
+        "a shuffled order of the operator groups on one shared mesh object (so cached area / cotan attributes are met in every order); every "
+        "returned matrix is overwritten in place right after it was read, and in 1/3 of the cases all groups are run a second time on the "
+        "same mesh (after another mesh object was used); the custom adjacency dict has a shuffled insertion order. On every mesh ALL options are swept: laplacian cotan/uniform/(vertex "
         "connection, order 1,2,4), gradient complex and real in SurfaceConnectionFaces (and FlatConnectionFaces on planar "
         "meshes) bases, three area mass matrices x inverse x sqrt x format, adjacency one/length/custom, vertex-edge operator "
         "oriented or not, vertex-face operator, graph laplacian, cotan_edge_diagonal inverse or not, laplacian_triangles and "
@@ -144,6 +146,42 @@ def worst(A, B):
     return f"at {tuple(int(x) for x in i)}: library {A[i]!r}, reference {B[i]!r} (largest entry {max(amax(A), amax(B)):.6g})"
 
 
+class SecondPass:
+    """ctx proxy used when every operator group is run a second time on the same mesh object (after all matrices returned by
+    the first pass were overwritten in place and after other mesh objects were used): signatures get a suffix"""
+
+    def __init__(self, ctx, suffix="@2nd-pass"):
+        self._c = ctx
+        self._s = suffix
+
+    def check(self, cond, signature, message="", **detail):
+        return self._c.check(cond, signature + self._s, message, **detail)
+
+    def fail(self, signature, message, **detail):
+        return self._c.fail(signature + self._s, message, **detail)
+
+    def call(self, signature, f, *a, **kw):
+        return self._c.call(signature + self._s, f, *a, **kw)
+
+    def __getattr__(self, name):
+        return getattr(self._c, name)
+
+
+def scribble(mat):
+    """Overwrite, in place, the values of a matrix the library returned.  A returned matrix belongs to the caller (who may scale
+    it, take its square root in place, ...): nothing the library computes afterwards on the same mesh may depend on it."""
+    try:
+        d = mat.data
+        if isinstance(d, np.ndarray) and d.dtype != object:
+            d[...] = d * (-2.5) + 7.0
+        else:                                   # lil: object array of python lists
+            for row in d:
+                for k in range(len(row)):
+                    row[k] = row[k] * (-2.5) + 7.0
+    except Exception:
+        pass
+
+
 def todense(ctx, sig, mat, shape, what):
     """validate 'a scipy sparse matrix of the stated shape with finite entries' and return it dense, else None"""
     if not ctx.check(sp.issparse(mat), sig + ":type", f"{what} returned {type(mat).__name__}, not a scipy sparse matrix"):
@@ -151,7 +189,8 @@ def todense(ctx, sig, mat, shape, what):
     if shape is not None and not ctx.check(tuple(mat.shape) == tuple(shape), sig + ":shape",
                                            f"{what} has shape {tuple(mat.shape)}, expected {tuple(shape)}"):
         return None
-    A = np.asarray(mat.toarray())
+    A = np.array(mat.toarray())                 # an independent dense copy ...
+    scribble(mat)                               # ... then the returned object is overwritten in place
     if not ctx.check(bool(np.all(np.isfinite(A))), sig + ":finite", f"{what} has non-finite entries"):
         return None
     return A
@@ -170,6 +209,7 @@ def check_entries(ctx, sig, mat, shape, expected, what):
     if not ctx.check(tuple(mat.shape) == tuple(shape), sig + ":shape", f"{what} has shape {tuple(mat.shape)}, expected {tuple(shape)}"):
         return False
     ent = stored_entries(mat)
+    scribble(mat)
     expected = {k: v for k, v in expected.items() if v != 0}      # a zero weight (zero-length edge) may or may not be stored
     pos = [(i, j) for i, j, _ in ent]
     dup = sorted(set(p for p in pos if pos.count(p) > 1)) if len(set(pos)) != len(pos) else []
@@ -216,8 +256,13 @@ def graph_reference(nV, edges, weights=None):
 
 
 def custom_weights(nE, seed):
+    """custom dict edge id -> weight; the INSERTION ORDER of the keys is a seeded shuffle (a dict filled while walking around
+    vertices, sorted by length, ... is not in edge order) - only the mapping matters"""
     rnd = random.Random(seed)
-    return {e: rnd.choice([-1.0, 1.0]) * round(rnd.uniform(0.1, 5.0), 3) for e in range(nE)}
+    w = {e: rnd.choice([-1.0, 1.0]) * round(rnd.uniform(0.1, 5.0), 3) for e in range(nE)}
+    order = list(range(nE))
+    rnd.shuffle(order)
+    return {e: w[e] for e in order}
 
 
 def lib_edges(ctx, m, expected_keys, what):
@@ -253,7 +298,7 @@ def graph_ops(ctx, M, m, nV, medges, Vn, wseed, prefix=""):
             exp[(a, b)] = wvals[e]
             exp[(b, a)] = wvals[e]
         check_entries(ctx, sig, A, (nV, nV), exp, f"adjacency_matrix(weights={wname})")
-    ctx.check(cw == custom_weights(nE, wseed), prefix + "arguments:weights-modified", "adjacency_matrix changed the custom weights dict it was given")
+    ctx.check(cw == custom_weights(nE, wseed) and list(cw) == list(custom_weights(nE, wseed)), prefix + "arguments:weights-modified", "adjacency_matrix changed the custom weights dict it was given")
     ok, A = ctx.call(prefix + "adjacency[custom,2nd]", M.operators.adjacency_matrix, m, cw)
     if ok:
         exp = {}
@@ -452,7 +497,7 @@ def tri_case(draw):
             "conn": draw(st.sampled_from(["faces", "flat"])) if planar else "faces",
             "vconn": draw(st.sampled_from([True, False, False])), "order": draw(st.sampled_from([1, 2, 4])),
             "wseed": draw(st.integers(0, 10 ** 6)), "fmt": draw(st.sampled_from(FORMATS)),
-            "sort": draw(st.sampled_from([True, True, False])), "group_seed": draw(st.integers(0, 10 ** 6))}
+            "sort": draw(st.sampled_from([True, True, False])), "second_pass": draw(st.sampled_from([True, False, False])), "group_seed": draw(st.integers(0, 10 ** 6))}
 
 
 def fn_surface(case, ctx):
@@ -682,7 +727,7 @@ def fn_surface(case, ctx):
         ctx.check(snapshot(m, "surface") == snap0, "arguments:mesh-modified", f"operator group '{gname}' changed the vertices / edges / faces of the mesh it was given")
 
     # ---------------------------------------------------------------- connection Laplacian on vertices (own fresh mesh)
-    if case.get("vconn") and not isolated:
+    def g_vconn():
         m2 = build_surface(V, F, int_mode)
         try:
             vc = M.processing.SurfaceConnectionVertices(m2)
@@ -712,6 +757,21 @@ def fn_surface(case, ctx):
                 check_sym_rowsum(ctx, sig, D, "uniform connection Laplacian", hermitian=True)
                 ctx.check(relclose(np.abs(D), U, 1e-8), sig + ":modulus", "|uniform connection Laplacian| != (#incident faces)/2 entrywise " + worst(np.abs(D), U))
 
+    if case.get("vconn") and not isolated:
+        g_vconn()
+
+    # ---------------------------------------------------------------- second pass on the SAME mesh object: by now every matrix the
+    # first pass returned has been overwritten in place and (with vconn) another mesh object has been built and used
+    if case.get("second_pass"):
+        ctx.label("second-pass")
+        ctx = SecondPass(ctx)
+        state.clear()
+        groups2 = list(groups)
+        random.Random(case["group_seed"] + 1).shuffle(groups2)
+        for gname, g in groups2:
+            g()
+            ctx.check(snapshot(m, "surface") == snap0, "arguments:mesh-modified", f"operator group '{gname}' changed the vertices / edges / faces of the mesh it was given")
+
 
 # ============================================================================================ tetrahedral meshes
 
@@ -726,7 +786,7 @@ def tet_case(draw):
     tags.append(scale_label(scale))
     int_mode = draw(st.sampled_from(["numpy", "python"])) if all_integral(V) else None
     return {"V": V, "C": t["C"], "tags": tags, "int_mode": int_mode, "wseed": draw(st.integers(0, 10 ** 6)), "fmt": draw(st.sampled_from(FORMATS)),
-            "pre": draw(st.booleans()), "group_seed": draw(st.integers(0, 10 ** 6))}
+            "pre": draw(st.booleans()), "second_pass": draw(st.sampled_from([True, False, False])), "group_seed": draw(st.integers(0, 10 ** 6))}
 
 
 def fn_volume(case, ctx):
@@ -819,6 +879,14 @@ def fn_volume(case, ctx):
     for gname, g in groups:
         g()
         ctx.check(snapshot(m, "volume") == snap0, "arguments:mesh-modified", f"operator group '{gname}' changed the vertices / edges / cells of the mesh it was given")
+    if case.get("second_pass"):
+        ctx.label("second-pass")
+        ctx = SecondPass(ctx)
+        groups2 = list(groups)
+        random.Random(case["group_seed"] + 1).shuffle(groups2)
+        for gname, g in groups2:
+            g()
+            ctx.check(snapshot(m, "volume") == snap0, "arguments:mesh-modified", f"operator group '{gname}' changed the vertices / edges / cells of the mesh it was given")
 
 
 # ============================================================================================ graphs: polylines and polygon surfaces
